@@ -10,6 +10,8 @@ use std::time::{Duration, SystemTime, UNIX_EPOCH};
 
 struct Cp {
     name: String,
+    /// the id the CHECKPOINT statement reported
+    id: String,
     battery: Battery,
     exist: Exist,
     /// the relational answers of the battery were recorded (false once the relational side is
@@ -284,14 +286,14 @@ impl Run<'_, '_> {
         let before = self.battery();
         let name = format!("cp{}", self.cps.len() + 1);
         let text = format!("CHECKPOINT '{name}'");
-        match self.w.exec(&text) {
-            Ok(QueryResult::Value(v)) if v.contains("Checkpoint created") => {},
+        let id = match self.w.exec(&text) {
+            Ok(QueryResult::Value(v)) if v.starts_with("Checkpoint created: ") => v["Checkpoint created: ".len()..].trim().to_string(),
             other => {
                 self.ctx.fail(format!("checkpoint-refused:{}", self.phase()), format!("`{text}` ({}) gives {other:?}", self.phase()))?;
                 self.stop = true;
                 return Ok(());
             },
-        }
+        };
         self.last_cp_second = Some(now_s());
         let after = self.battery();
         if let Some((text, eng, want, got)) = first_diff(&before, &after, true) {
@@ -302,7 +304,7 @@ impl Run<'_, '_> {
             self.stop = true;
             return Ok(());
         }
-        self.cps.push(Cp { name, battery: before, exist: self.ex.clone(), rel_valid: !self.rel_broken });
+        self.cps.push(Cp { name, id, battery: before, exist: self.ex.clone(), rel_valid: !self.rel_broken });
         self.retained.push(self.cps.len() - 1);
         while self.retained.len() > max {
             self.retained.remove(0);
@@ -388,15 +390,20 @@ impl Run<'_, '_> {
         Ok(())
     }
 
-    fn rollback(&mut self, idx: usize) -> Result<(), Fail> {
+    fn rollback(&mut self, idx: usize, by_id: bool) -> Result<(), Fail> {
         let name = self.cps[idx].name.clone();
+        // the statement takes a name or an id
+        let target = if by_id { self.cps[idx].id.clone() } else { name.clone() };
+        if by_id {
+            self.ctx.label("rollback:by-id");
+        }
         let newest = self.retained.last() == Some(&idx);
         self.ctx.label(if newest { "rollback:to-newest-retained" } else { "rollback:to-older-retained" });
         if self.rolled_to.contains(&idx) {
             self.ctx.label("rollback:again-to-the-same-checkpoint");
         }
         let pre = self.battery();
-        let text = format!("ROLLBACK TO '{name}'");
+        let text = format!("ROLLBACK TO '{target}'");
         if let Err(e) = self.w.exec(&text) {
             self.ctx.fail(
                 format!("rollback-refused:listed-checkpoint:{}", err_class(&e)),
@@ -476,7 +483,8 @@ impl Run<'_, '_> {
     fn rollback_gone(&mut self, k: u8) -> Result<(), Fail> {
         let evicted: Vec<usize> = (0..self.cps.len()).filter(|i| !self.retained.contains(i)).collect();
         let (name, class) = if !evicted.is_empty() && k % 4 != 3 {
-            (self.cps[evicted[pick(u16::from(k) << 8, evicted.len())]].name.clone(), "evicted-or-lost")
+            let c = &self.cps[evicted[pick(u16::from(k) << 8, evicted.len())]];
+            (if k % 2 == 1 { c.id.clone() } else { c.name.clone() }, "evicted-or-lost")
         } else {
             (format!("never{k}"), "never-created")
         };
@@ -635,11 +643,15 @@ pub fn run(case: &Case, ctx: &mut CaseCtx) -> Result<(), Fail> {
                     run.ctx.label("skipped:rollback-without-listed-checkpoint");
                 } else {
                     let idx = run.retained[pick(*i, run.retained.len())];
-                    run.rollback(idx)?;
+                    run.rollback(idx, i % 2 == 1)?;
                 }
             },
             Op::RollbackGone(k) => run.rollback_gone(*k)?,
         }
+    }
+    // a checkpoint that retention has evicted cannot be rolled back to
+    if !run.stop && run.retained.len() < run.cps.len() {
+        run.rollback_gone(0)?;
     }
     // every listed checkpoint can be rolled back to (newest first), or one chosen
     if !run.stop && !run.retained.is_empty() {
@@ -651,14 +663,14 @@ pub fn run(case: &Case, ctx: &mut CaseCtx) -> Result<(), Fail> {
                     break;
                 }
                 if run.retained.contains(&idx) {
-                    run.rollback(idx)?;
+                    run.rollback(idx, false)?;
                 } else {
                     run.ctx.label("skipped:sweep-target-lost-by-known-finding");
                 }
             }
         } else {
             let idx = run.retained[pick(case.last, run.retained.len())];
-            run.rollback(idx)?;
+            run.rollback(idx, case.last % 2 == 1)?;
         }
     }
     if run.stop {
@@ -670,6 +682,77 @@ pub fn run(case: &Case, ctx: &mut CaseCtx) -> Result<(), Fail> {
     }
     if std::env::var("NV_C08_NOTE").is_ok() {
         run.ctx.note = Some(serde_json::json!({ "statements": run.w.trace }));
+    }
+    Ok(())
+}
+
+// ---------------------------------------------------------------------------------------------
+// part `burst`
+
+/// More checkpoints than the limit, created back to back. Only runs in which every CHECKPOINT of
+/// the burst fell into one wall-clock second (by the harness clock read around the statements) are
+/// judged: the newest `limit` checkpoints have to be the listed ones. A fresh database is tried up to
+/// 20 times, because which checkpoint the product evicts among equal creation seconds varies from
+/// run to run; the first wrong eviction is reported.
+pub fn burst(case: &crate::prog::Burst, ctx: &mut CaseCtx) -> Result<(), Fail> {
+    let max = case.max_cp as usize;
+    let total = max + case.extra as usize;
+    ctx.label(format!("limit:{max}"));
+    let mut judged = 0;
+    for _attempt in 0..60 {
+        if judged >= 20 {
+            break;
+        }
+        let mut w = World::new(max)?;
+        let t0 = now_s();
+        let mut ok = true;
+        for i in 1..=total {
+            let _ = w.exec(&format!("EMBED STORE 'e{}' [1.00, {i}.00, 0.00]", i % 6));
+            match w.exec(&format!("CHECKPOINT 'cp{i}'")) {
+                Ok(QueryResult::Value(_)) => {},
+                other => {
+                    ctx.fail("checkpoint-refused:burst", format!("CHECKPOINT 'cp{i}' gives {other:?}"))?;
+                    ok = false;
+                    break;
+                },
+            }
+        }
+        if !ok {
+            return Ok(());
+        }
+        let listed = list_checkpoints(&mut w).map_err(|e| Fail::new("checkpoints-listing-failed:burst", e))?;
+        if now_s() != t0 {
+            // the burst crossed a second boundary: creation order is (partly) visible to the product, not judged here
+            continue;
+        }
+        judged += 1;
+        let mut names: Vec<String> = listed.iter().map(|c| c.0.clone()).collect();
+        names.sort();
+        let mut want: Vec<String> = (total - max + 1..=total).map(|i| format!("cp{i}")).collect();
+        want.sort();
+        if names.len() != max {
+            ctx.fail(
+                "retention:count-differs-from-limit:burst",
+                format!("{total} checkpoints created back to back with limit {max}: CHECKPOINTS lists {names:?}"),
+            )?;
+            return Ok(());
+        }
+        if names != want {
+            ctx.set_nontrivial();
+            ctx.label("burst:wrong-eviction-seen");
+            ctx.fail(
+                "retention:same-second:newer-checkpoint-evicted",
+                format!(
+                    "{total} checkpoints cp1..cp{total} created back to back within one second with limit {max}: CHECKPOINTS lists {names:?}, the newest {max} are {want:?} (creation seconds reported: {:?})",
+                    listed.iter().map(|c| c.1).collect::<Vec<_>>()
+                ),
+            )?;
+            return Ok(());
+        }
+    }
+    ctx.label(format!("burst:no-wrong-eviction-in-{judged}-judged-runs"));
+    if judged > 0 {
+        ctx.set_nontrivial();
     }
     Ok(())
 }
